@@ -85,6 +85,15 @@ def run(ctx):
             cases.append((layout(rng, ws, ASCII_WS), "valid/ascii-layout/%d" % k, "must", rng.random() < 0.5))
             if rng.random() < 0.3:
                 cases.append((layout(rng, ws, UNICODE_WS + ASCII_WS), "valid/unicode-layout/%d" % k, "may", True))
+    # a valid phrase with extra tokens that are not words at all (numbering, punctuation, digits): unknown words, refused
+    for k in LENS:
+        ws = phrase_words(rbytes(rng, LENS[k]))
+        cases.append((" ".join("%d. %s" % (i + 1, w) for i, w in enumerate(ws)), "junk-token/numbered", "must", True))
+        cases.append((" ".join("%d %s" % (i + 1, w) for i, w in enumerate(ws)), "junk-token/numbered", "must", True))
+        for junk in ("1.", "1", "12", ".", "..", "3.14", "-", "*", "#1", "(1)", "1)", "0", "00", ",", ";", "_", "'", "\"", "|"):
+            pos = rng.randrange(k + 1)
+            cases.append((" ".join(ws[:pos] + [junk] + ws[pos:]), "junk-token/inserted", "must", True))
+            cases.append((" ".join(ws[:-1] + [junk]), "junk-token/replacing-the-last-word", "must", True))
     # ... and far beyond: 41..50 words, 2^k and 2^k +- 1 words, hundreds and thousands of (valid) words
     for k in list(range(41, 51)) + [63, 64, 65, 95, 96, 97, 127, 128, 129, 255, 256, 1000, 5000]:
         cases.append((" ".join(["abandon"] * k), "count/unsupported", "must", k <= 256))
